@@ -2939,6 +2939,9 @@ def exec_while(eng, s, frame):
             v1 = eng.eval_clause(ctr, var, inv_bindings(eng, var, frame, kk + 1)).as_int()
             run.obligation("variant-decreases", v1 < v0, s, name=f"loop{k_ord}")
         raise PathEnd()
+    if z3.is_false(z3.simplify(z3.Not(c))):
+        from .symexec import PathEnd
+        raise PathEnd()        # `while True`: the loop is only ever left through break / return / raise
     run.assume(z3.Not(c))
     eng.exec_block(s.orelse, frame)
 
